@@ -256,6 +256,32 @@ class Exec:
             return self.const(1, 'bool')
         if txt == 'const false':
             return self.const(0, 'bool')
+        m = re.match(r'^const ((?:\w+::)*[A-Z][A-Z_0-9]*)$', txt)
+        if m and m.group(1).split('::')[-1] not in self.params:
+            # a named constant of the crate (Q, D, encodings::pk_decode::BLQD, ml_dsa_44::GAMMA1, ...): evaluate its MIR body
+            segs = m.group(1).split('::')
+            cands = []
+            for k in range(len(segs)):
+                nm = '@const:' + '::'.join(segs[k:])
+                if nm in self.funcs:
+                    cands = [nm]
+                    break
+            if cands and getattr(self, '_const_depth', 0) < 6:
+                self._const_depth = getattr(self, '_const_depth', 0) + 1
+                saved = (getattr(self, 'curf', None), getattr(self, 'curbb', None), self.cut_loops, len(self.path_states))
+                res = []
+                try:
+                    self.cut_loops = False
+                    res, obl = self.run(cands[0], [])
+                except Refuse:
+                    res = []
+                finally:
+                    self.cut_loops = saved[2]
+                    self.curf, self.curbb = saved[0], saved[1]
+                    del self.path_states[saved[3]:]
+                    self._const_depth -= 1
+                if len(res) == 1 and res[0][1] is not None:
+                    return res[0][1]
         m = re.match(r'^const ([A-Z][A-Z_0-9]*)$', txt)
         if m:
             name = m.group(1)
@@ -611,7 +637,13 @@ class Exec:
                 arrs = dict(arrs); arrs[bk] = z3.Store(arrs[bk], iv.t, v.t); st['@arrays'] = arrs
                 return
             if self.concrete(iv) is None:
-                raise Refuse(f'write through a symbolic index into an untracked array {self.key_str(bk)}')
+                if not self.cut_loops:
+                    raise Refuse(f'write through a symbolic index into an untracked array {self.key_str(bk)}')
+                # skeleton mode: the array becomes an opaque `store(old, index, value)` term
+                ks = self.key_str(bk)
+                old = st.get(ks)
+                st[ks] = Opaque(f'store({self.show(old, st, 3) if old is not None else ks}, {self.idx_str(iv)}, {self.show(v, st, 3)})', 'array')
+                return
             st[f'{self.key_str(bk)}[{self.idx_str(iv)}]'] = v
             return
         st[key] = v
